@@ -415,7 +415,7 @@ def container_attr(it, o, name):
 
 
 _KNOWN_METHODS = {
-    'list': {'append', 'extend', 'pop', 'popleft', 'appendleft', 'reverse', 'insert', 'remove', 'index', 'copy', 'sort', '__iter__',
+    'list': {'__getitem__', '__len__', 'append', 'extend', 'pop', 'popleft', 'appendleft', 'reverse', 'insert', 'remove', 'index', 'copy', 'sort', '__iter__',
              '__contains__', 'count', 'clear'},
     'tuple': {'index', 'count'},
     'dict': {'get', 'items', 'keys', 'values', 'copy', 'update', 'pop', 'setdefault'},
@@ -440,6 +440,10 @@ def call_bound(it, recv, name, args, kwargs):
             return recv.conj()
         if name == 'item':
             return recv
+    if name == '__getitem__' and isinstance(recv, (list, tuple, dict, str)) and len(args) == 1:
+        return subscript(it, recv, args[0])
+    if name == '__len__' and isinstance(recv, (list, tuple, dict, str)) and not args:
+        return len(recv)
     if isinstance(recv, list):
         if name == 'popleft':          # collections.deque is modelled by a list
             if not recv:
@@ -996,6 +1000,35 @@ def call_ext(it, dotted, args, kwargs):
                         return False
         from .interp import _canon_diff, _SignTest
         if d.is_const():
+            # concrete operands and concrete tolerances: |a-b| <= atol + rtol*|b| decided in exact arithmetic (well clear of the threshold)
+            def tol_(name, default):
+                v_ = kwargs.get(name, default)
+                if isinstance(v_, (int, float)) and not isinstance(v_, bool):
+                    return Fr(str(v_)) if isinstance(v_, float) else Fr(v_)
+                f_ = _num(v_).as_fraction() if not isinstance(v_, Fr) else v_
+                return f_
+            rt, at = tol_('rtol', Fr(1, 10 ** 5)), tol_('atol', Fr(1, 10 ** 8))
+            bb = _num(b)
+            dc = d.const_value() if not d.has_fn_atoms() else None
+            bc = bb.const_value() if bb.is_const() and not bb.has_fn_atoms() else None
+            if rt is not None and at is not None and dc is not None and (rt == 0 or bc is not None):
+                d2 = dc[0] * dc[0] + dc[1] * dc[1]
+                if rt == 0:
+                    lo = hi = at
+                else:
+                    b2 = bc[0] * bc[0] + bc[1] * bc[1]
+                    import math
+                    # |b| bracketed by rationals
+                    scale = 10 ** 12
+                    n_ = b2 * scale * scale
+                    r_ = math.isqrt(int(n_))
+                    lo = at + rt * Fr(r_, scale)
+                    hi = at + rt * Fr(r_ + 1, scale)
+                margin = Fr(1, 10 ** 6)
+                if d2 <= lo * lo * (1 - margin):
+                    return True
+                if d2 >= hi * hi * (1 + margin):
+                    return False
             raise Undecidable('isclose of nearby constants')
         sgn, key, text = _canon_diff(d)
         return _SignTest('close:' + key, '0', 'isclose(%s, 0)' % text, '0+')
